@@ -129,6 +129,14 @@ impl From<Qcow2IoBuf<RefTableEntry>> for RefTable {
     }
 }
 
+#[cfg(feature = "verif-hooks")]
+impl RefTable {
+    /// number of top-table blocks queued for write-back
+    pub fn verif_dirty_blocks(&self) -> usize {
+        self.dirty_blocks.borrow().len()
+    }
+}
+
 impl_top_table_traits!(RefTable, RefTableEntry, data);
 
 #[derive(Copy, Clone, Default, Debug)]
